@@ -165,6 +165,17 @@ fn grid(thorough: bool) -> Vec<RHub> {
             }
         }
     }
+    // fields of several kilobytes (a fixed-size scratch buffer somewhere in the codec would show here)
+    let id = ids()[0];
+    for big in [4000usize, 4097, 5000, 70_000] {
+        let t = RMsg::Transfer { token_id: id, source_address: pat(20, 3), destination_address: pat(32, 9), amount: 1000, data: pat(big, 5) };
+        out.push(RHub::SendToHub { chain: b"ethereum".to_vec(), msg: t.clone() });
+        out.push(RHub::ReceiveFromHub { chain: b"ethereum".to_vec(), msg: t });
+        let t = RMsg::Transfer { token_id: id, source_address: pat(big, 3), destination_address: pat(big, 9), amount: 1, data: vec![] };
+        out.push(RHub::ReceiveFromHub { chain: pat(big, 7).iter().map(|b| b'a' + b % 26).collect(), msg: t });
+        let d = RMsg::Deploy { token_id: id, name: vec![b'n'; big], symbol: vec![b's'; big], decimals: 18, minter: pat(big, 11) };
+        out.push(RHub::ReceiveFromHub { chain: b"ethereum".to_vec(), msg: d });
+    }
     out
 }
 
@@ -357,7 +368,9 @@ fn main() {
 
     // ---- decode side: deviations of a covering subset of encodings
     let step = if thorough { g.len() / 2048 } else { g.len() / 128 };
-    let base_msgs: Vec<&RHub> = g.iter().step_by(step.max(1)).collect();
+    // (the few messages with multi-kilobyte fields are grid members only: mutating every bit of them
+    // would dwarf everything else)
+    let base_msgs: Vec<&RHub> = g.iter().step_by(step.max(1)).filter(|h| abi_hub(h).len() <= 2048).collect();
     let bases: Vec<Vec<u8>> = base_msgs.iter().map(|h| abi_hub(h)).collect();
     let mut n_mut = 0u64;
     let mut samples: Vec<serde_json::Value> = vec![];
@@ -466,7 +479,7 @@ fn main() {
     let cov = serde_json::json!({
         "evaluations": st.evals.load(Ordering::Relaxed),
         "distinct_nontrivial": st.distinct.load(Ordering::Relaxed),
-        "rule": "encode side: the full product grid of hub messages (both wrappers x both inner kinds; chain names of 0/1/31/32/33 bytes, multi-byte, mixed case with surrounding blanks; ids 00.., ff.., pattern; address/data/minter lengths 0,1,31,32,33,64,65; amounts 0,1,1000,2^64,2^127-1; names/symbols of 1 byte, 2- and 4-byte UTF-8 scalars, 31/32/33 bytes, a single blank, mixed case with surrounding blanks, a trailing NUL; decimals 0,1,18,255): abi_encode must equal the independent head/tail encoder byte for byte and decode back to the same message. Decode side: for a covering subset of 128 (quick) / 2048 (thorough) encodings every truncation, every single-bit flip, every 32-byte word replaced by each of ~30 boundary words and by each of the 256 words whose four 64-bit limbs are 0 / 1 / 2^63 / 2^64-1, pairs of word replacements, 8 kinds of trailing bytes, 4 kinds of trailing bytes on the inner message inside a canonical wrapper; all byte strings of length <= 2; all one-hot words; short type-tag-only inputs. Oracle: no panic, and Ok(m) implies both re-encoding m and the independent encoding of m reproduce the input exactly. A case is distinct when its byte string (or message) differs; all are non-trivial (each is a decode or encode compared with the reference)",
+        "rule": "encode side: the full product grid of hub messages (both wrappers x both inner kinds; chain names of 0/1/31/32/33 bytes, multi-byte, mixed case with surrounding blanks; ids 00.., ff.., pattern; address/data/minter lengths 0,1,31,32,33,64,65 and, for a few messages, 4000 / 4097 / 5000 / 70000 in every variable-length field; amounts 0,1,1000,2^64,2^127-1; names/symbols of 1 byte, 2- and 4-byte UTF-8 scalars, 31/32/33 bytes, a single blank, mixed case with surrounding blanks, a trailing NUL; decimals 0,1,18,255): abi_encode must equal the independent head/tail encoder byte for byte and decode back to the same message. Decode side: for a covering subset of 128 (quick) / 2048 (thorough) encodings every truncation, every single-bit flip, every 32-byte word replaced by each of ~30 boundary words and by each of the 256 words whose four 64-bit limbs are 0 / 1 / 2^63 / 2^64-1, pairs of word replacements, 8 kinds of trailing bytes, 4 kinds of trailing bytes on the inner message inside a canonical wrapper; all byte strings of length <= 2; all one-hot words; short type-tag-only inputs. Oracle: no panic, and Ok(m) implies both re-encoding m and the independent encoding of m reproduce the input exactly. A case is distinct when its byte string (or message) differs; all are non-trivial (each is a decode or encode compared with the reference)",
         "samples": samples,
         "exhaustive": fail.is_none(),
         "grid_messages": n_grid,
